@@ -4,6 +4,31 @@ import json, os
 PROPS = [json.loads(l)['id'] for l in open('/verif/properties.jsonl')]
 
 CLAIMED = {
+ 'C14': dict(
+   category='proof',
+   text=('PARTIAL proof + differential correspondence. Proved in Coq: the lazy-transposition mechanism is faithful and compositional (a pending '
+         'permutation acts on indices exactly as the materialised one; pending permutations compose; visible axes map to the native legs carrying the '
+         'requested indices). The semantics of a program in the model mentions neither tensordot_policy nor fusion mode; each policy/fusion/lazy variant '
+         'of the implementation is tied to it by running every generated program (incl. operation sequences with svd) under 9 configurations and demanding '
+         'bit-identical observables (unfused legs, charge, dense bytes) plus agreement with NumPy; contract_with_unroll under unroll specs vs ncon.'),
+   design_ref='DESIGN.md section 6 C14',
+   note=('Trusted: Coq kernel, no axioms. A model-level theorem that the three block-pairing strategies coincide is not proved (needs the L-block '
+         'tensordot refinement, a growth item); policy/fusion independence itself rests on the exact differential runs, which are tests, not theorems.'),
+   technique='Coq proof (lazy transposition laws) + exact differential correspondence across configurations'),
+ 'C15': dict(
+   category='proof',
+   text=('Heap model (values = structure + storage location; operations Alias / Fresh / Copy / in-place SetItem / Rebind): proved in Coq for ALL finite '
+         'sequences of non-in-place operations and all initial heaps that every pre-existing object keeps its observable value even when results share '
+         'its storage (frame), that copies are independent of any sequence of in-place writes on either side, and that an in-place write reaches only '
+         'objects sharing the receiver storage. The tie to the code is the classification of every public operation and the absence of writes to operand '
+         'storage, validated per call by byte-level snapshots: every public Tensor method (list regenerated from the class), every generated operation case '
+         'and sequence, svd/qr/eigh drivers incl. low-rank policies on natural-order operands, MPS/MPO functions and methods (also mid-sweep states with a '
+         'central block, HDF5/dict export), Peps copy/clone.'),
+   design_ref='DESIGN.md section 6 C15',
+   note=('Trusted: Coq kernel, no axioms; the classification table in tools/checks/C15.py; snapshots observe data, struct, slices, hfs, mfs, trans, MPS site '
+         'maps / factor / pC. The model is not executed against the code (aliasing patterns are data-dependent and not required by the property); memory '
+         'safety of NumPy/LAPACK wrappers is outside the model and observed only through the snapshots.'),
+   technique='Coq proof (frame invariant over operation sequences) + per-call byte-snapshot validation of the operation classification'),
  'C01': dict(
    category='proof',
    text=('PARTIAL proof + exact correspondence. Proved in Coq for the L-block model (all ranks, sector sets, dimensions, also sectors present in only '
